@@ -7,6 +7,7 @@ import Nq.Spec.SmtpPolicyDoc
 import Nq.Lemmas.SmtpPolicy
 import Nq.Lemmas.SmtpAddr
 import Nq.Lemmas.SmtpCmdSpec
+import Nq.Lemmas.SmtpSession
 
 namespace Nq.Lemmas.SmtpDoc
 open Nq Nq.SmtpSession Nq.SmtpPolicy Nq.CmdLineSpec Nq.SmtpPolicyDoc Nq.Lemmas.Smtp Nq.Lemmas.SmtpCmd
@@ -282,5 +283,48 @@ theorem rcpt_step_doc (cfg : Cfg) (hl : MoreLower cfg) (s : Sess) (arg a : Bytes
       simp only [sstep, h1, h2, ha, hr, hx]
       refine ⟨by simp [hd], ?_, by simp⟩
       intro stored hs; exact absurd hs.1 hd
+
+/-! ### whole sessions -/
+
+theorem rcptDoc_exists_iff (cfg : Cfg) (a : Bytes) : (∃ stored, RcptDoc cfg a stored) ↔ (cfg.relay.isSome = true ∨ MatchSpec cfg a) := by
+  unfold RcptDoc
+  cases hr : cfg.relay with
+  | some rc => simp
+  | none => simp [rcptHostOK_iff]
+
+theorem gateDoc_iff (cfg : Cfg) (pre : List Ev) (arg : Bytes) : GateDoc cfg pre arg ↔ GateOK cfg pre arg := by
+  unfold GateDoc GateOK
+  constructor
+  · rintro ⟨snd, mid, adr, stored, h1, h2, h3, h4, h5⟩
+    exact ⟨snd, mid, adr, h1, fun e => h2 ((badSenderDoc_iff cfg snd).2 e), h3, h4, (rcptDoc_exists_iff cfg adr).1 ⟨stored, h5⟩⟩
+  · rintro ⟨snd, mid, adr, h1, h2, h3, h4, h5⟩
+    obtain ⟨stored, hs⟩ := (rcptDoc_exists_iff cfg adr).2 h5
+    exact ⟨snd, mid, adr, stored, h1, fun e => h2 ((badSenderDoc_iff cfg snd).1 e), h3, h4, hs⟩
+
+theorem bool_eq_of_iff {a b : Bool} (h : a = true ↔ b = true) : a = b := by
+  cases a <;> cases b <;> simp_all
+
+theorem gateDocB_eq (cfg : Cfg) (pre : List Ev) (arg : Bytes) : gateDocB cfg pre arg = gateOKB cfg pre arg := by
+  unfold gateDocB gateOKB
+  cases openTxnB cfg pre with
+  | none => rfl
+  | some x =>
+    obtain ⟨snd, mid⟩ := x
+    simp only
+    have e1 : badSenderDocB cfg snd = badSenderB cfg snd :=
+      bool_eq_of_iff ((badSenderDocB_iff cfg snd).trans ((badSenderDoc_iff cfg snd).trans (badSenderB_iff cfg snd).symm))
+    rw [e1]
+    cases addrparse cfg arg with
+    | none => rfl
+    | some adr =>
+      simp only
+      have e2 : (rcptDocB cfg adr).isSome = (cfg.relay.isSome || matchSpecB cfg adr) := by
+        apply bool_eq_of_iff
+        rw [Option.isSome_iff_exists]
+        simp only [rcptDocB_iff, rcptDoc_exists_iff, Bool.or_eq_true, matchSpecB_iff]
+      rw [e2]
+
+theorem gateDocB_iff (cfg : Cfg) (pre : List Ev) (arg : Bytes) : gateDocB cfg pre arg = true ↔ GateDoc cfg pre arg := by
+  rw [gateDocB_eq, gateOKB_iff, gateDoc_iff]
 
 end Nq.Lemmas.SmtpDoc
